@@ -79,6 +79,12 @@ type hCase struct {
 	// connection under test is already open and stays served, so nothing
 	// about the conversation changes.
 	ShutdownAt int `json:"shutdown_at,omitempty"`
+	// Bystander: before the judged conversation begins, another connection to
+	// the same server greets, opens a transaction with two recipients and
+	// then sits there for the whole history (it is closed at the end).
+	// Connections share a server and a backend, nothing else: nothing about
+	// the judged conversation changes.
+	Bystander bool `json:"bystander,omitempty"`
 }
 
 func (c hCmd) String() string {
@@ -368,6 +374,7 @@ func genHistory(t *rapid.T, maxLen int, garbageCtl bool) hCase {
 	if rapid.IntRange(0, 5).Draw(t, "shutdown") == 0 {
 		c.ShutdownAt = rapid.IntRange(1, len(c.Cmds)).Draw(t, "shutdown_at")
 	}
+	c.Bystander = rapid.IntRange(0, 5).Draw(t, "bystander") == 0
 	return c
 }
 
@@ -432,6 +439,7 @@ type stepRec struct {
 }
 
 type hRun struct {
+	pre    []harness.Event // events before the judged conversation (the bystander's)
 	steps  []stepRec
 	banner []byte
 	tail   []harness.Event // events after the last command (Logout at EOF)
@@ -442,17 +450,44 @@ type hRun struct {
 	out      []byte // complete server output (plaintext)
 }
 
+// startBystander opens the bystander connection of c (nil if it has none). It
+// is dialled before the judged connection, so that the backend's wire marks
+// follow the latter.
+func startBystander(c hCase, r *harness.Rig) *harness.Wire {
+	if !c.Bystander {
+		return nil
+	}
+	bw, _ := r.Dial()
+	if bw.WaitQuiet() != harness.QIdle {
+		return bw
+	}
+	bw.Exchange([]byte(greetWord(c.Cfg.LMTP) + " bystander\r\nMAIL FROM:<bystander@x>\r\nRCPT TO:<by1@x>\r\nRCPT TO:<by2@x>\r\n"))
+	return bw
+}
+
+// endBystander closes it (before the judged connection's Finish, which joins
+// every handler).
+func endBystander(bw *harness.Wire) {
+	if bw != nil {
+		bw.CloseWrite()
+		bw.WaitClosed()
+	}
+}
+
 func runLockstep(c hCase) hRun {
 	r := harness.NewRig(c.Cfg, c.Script)
+	bw := startBystander(c, r)
 	w, _ := r.Dial()
 	run := hRun{rig: r}
 	if st := w.WaitQuiet(); st != harness.QIdle {
+		endBystander(bw)
 		w.Finish()
 		run.incon = "server not idle after connect: " + st
 		return run
 	}
 	run.banner = w.Recv()
-	nev := 0
+	run.pre = r.B.Events()
+	nev := len(run.pre)
 	take := func(sr *stepRec) bool {
 		st := w.WaitQuiet()
 		for i := 0; st == harness.QGate && i < 8; i++ {
@@ -482,6 +517,7 @@ func runLockstep(c hCase) hRun {
 	closed := false
 	for ci, cmd := range c.Cmds {
 		if c.ShutdownAt == ci+1 && !r.BeginShutdown() {
+			endBystander(bw)
 			w.Finish()
 			run.incon = "graceful Shutdown did not close the listener (watchdog)"
 			return run
@@ -542,6 +578,7 @@ func runLockstep(c hCase) hRun {
 		_, sr.PErr = harness.ParseReplies(sr.Raw)
 		run.steps = append(run.steps, sr)
 		if !ok {
+			endBystander(bw)
 			w.Finish()
 			return run
 		}
@@ -551,6 +588,7 @@ func runLockstep(c hCase) hRun {
 		}
 	}
 	_ = closed
+	endBystander(bw)
 	rest, fin := w.Finish()
 	if !fin {
 		run.incon = "watchdog while finishing"
@@ -634,6 +672,19 @@ type monitor struct {
 
 func newMonitor(c hCase) *monitor {
 	return &monitor{cfg: c.Cfg, script: c.Script, classes: map[string]bool{}}
+}
+
+// preload accounts for the scripted decisions used up before the judged
+// conversation began (by the bystander connection).
+func (m *monitor) preload(pre []harness.Event) {
+	m.nNew += len(begins(pre, "NewSession"))
+	m.nMail += len(begins(pre, "Mail"))
+	m.nRcpt += len(begins(pre, "Rcpt"))
+	m.nData += len(begins(pre, "Data", "LMTPData"))
+	m.nSASL += saslTaken(pre)
+	if len(pre) > 0 {
+		m.classes["bystander_connection_with_open_transaction"] = true
+	}
 }
 
 func (m *monitor) txnEnd() {
